@@ -267,7 +267,7 @@ func cmdGen(args []string) error {
 			}
 			spec = "c:7"
 		}
-		h := hx(s)
+		h := hxFull(s)
 		if h == "" {
 			h = "-"
 		}
